@@ -247,7 +247,6 @@ func (node *mastNode) follow(ctx context.Context, i int, createOk bool, mast *Ma
 		return node, nil
 	} else {
 		child := emptyNodePointer(cap(node.Key))
-		node.Link[i] = child
 		return child, nil
 	}
 }
